@@ -29,6 +29,7 @@ hypothesis does not mention `copyAttrs`); what breaks is the independence of key
 -/
 import AnnetModel.Lemmas.Effects
 import AnnetModel.Gen.Effects
+import AnnetModel.Spec.ProcessState
 
 /-! OBLIGATIONS
 Annet.Effects.C20_no_escape
@@ -46,6 +47,7 @@ Annet.Effects.C20_flag_needed_attrs
 Annet.Effects.C20_flag_needed_match
 Annet.Effects.C20_flag_needed_both
 Annet.Effects.C20_confinement_needed
+Annet.Effects.C20_process_state_audited
 -/
 
 namespace Annet.Effects
@@ -268,5 +270,13 @@ example : ∀ (l : List (Nat × Bool)) x, l.head? = some x → x ∈ l := fun _ 
 
 /-- the table is not empty and contains writers -/
 example : (Annet.Gen.Effects.table.filter (fun e => !e.writes.isEmpty)).length ≥ 10 := by decide
+
+/-- THE HIDDEN HYPOTHESIS OF HISTORY INDEPENDENCE, checked against the source on every run: the places of the annet modules a
+worker runs where a value can outlive a call (regenerated from the Python ASTs: `Gen.Effects.processState`) are exactly the
+audited ones of `Spec/ProcessState.lean` — constant tables, memoised pure functions of texts, start-up configuration.  A new
+cache, class-level container, mutable default argument or `global` breaks this theorem. -/
+theorem C20_process_state_audited : Annet.Gen.Effects.processState = Annet.ProcessState.audited := by
+  decide +kernel
+
 
 end Annet.Effects
